@@ -304,87 +304,6 @@ func fieldOrParam(p *Program, fb funcBody, o types.Object) (string, bool) {
 	return "", false
 }
 
-// noFreshErrorRule: the methods named mname fail only when a callee failed.
-func noFreshErrorRule(c *Ctx, rule, mname string) {
-	p := c.P
-	c.Rule(rule, "every return of a non-nil error from a "+mname+" method either hands on the error a callee returned, or stands in the default clause of a type switch over a sealed interface (no implementer reaches it): an error made up under a condition on the statement (an INTO inside a subquery, an empty name) turns a statement the parser accepts into one without a privilege list")
-	n := 0
-	for _, f := range p.SortedFuncs() {
-		fd := p.FuncDecls[f]
-		if fd == nil || fd.Body == nil || f.Name() != mname || fd.Recv == nil {
-			continue
-		}
-		sig := f.Type().(*types.Signature)
-		if sig.Results().Len() == 0 || p.TypeStr(sig.Results().At(sig.Results().Len()-1).Type()) != "error" {
-			continue
-		}
-		ord := 0
-		var walk func(nd ast.Node, inDefault bool)
-		walk = func(nd ast.Node, inDefault bool) {
-			ast.Inspect(nd, func(m ast.Node) bool {
-				if m == nd {
-					return true
-				}
-				switch x := m.(type) {
-				case *ast.FuncLit:
-					return false
-				case *ast.TypeSwitchStmt:
-					for _, cl := range x.Body.List {
-						cc := cl.(*ast.CaseClause)
-						for _, st := range cc.Body {
-							walk(st, cc.List == nil)
-						}
-						if len(cc.Body) > 0 {
-							// walk() skips the root node itself: handle a bare return
-							for _, st := range cc.Body {
-								if r, ok := st.(*ast.ReturnStmt); ok {
-									checkErrReturn(c, p, rule, recvTypeName(f)+"."+mname, &ord, &n, r, cc.List == nil)
-								}
-							}
-						}
-					}
-					return false
-				case *ast.ReturnStmt:
-					checkErrReturn(c, p, rule, recvTypeName(f)+"."+mname, &ord, &n, x, inDefault)
-				}
-				return true
-			})
-		}
-		walk(fd.Body, false)
-	}
-	c.Floor(rule, n, 3)
-}
-
-func checkErrReturn(c *Ctx, p *Program, rule, fname string, ord, n *int, r *ast.ReturnStmt, inDefault bool) {
-	if len(r.Results) == 0 {
-		return
-	}
-	e := ast.Unparen(r.Results[len(r.Results)-1])
-	if tv, ok := p.Info.Types[e]; ok {
-		if _, isTuple := tv.Type.(*types.Tuple); isTuple {
-			return // `return x.RequiredPrivileges()`: the callee's answer as it is
-		}
-	}
-	if id, ok := e.(*ast.Ident); ok && id.Name == "nil" {
-		return
-	}
-	*ord++
-	*n++
-	key := fmt.Sprintf("%s: error return #%d", fname, *ord)
-	switch x := e.(type) {
-	case *ast.Ident:
-		c.OK(rule, key, r.Pos(), "hands on "+x.Name)
-	case *ast.CallExpr:
-		if inDefault {
-			c.OK(rule, key, r.Pos(), "default clause of the type switch: no implementer arrives here")
-		} else {
-			c.Bad(rule, key, r.Pos(), "a new error ("+types.ExprString(x.Fun)+") is returned under a condition on the statement itself")
-		}
-	default:
-		c.Unk(rule, key, r.Pos(), "error expression not recognised")
-	}
-}
-
 // skipFilledC20: the naming pass leaves a column alone exactly when the alias
 // pass already filled it.
 func skipFilledC20(c *Ctx, cn *types.Func) {
